@@ -28,7 +28,8 @@
          protocol error or does not yield the effective configuration of the
          last admissible load
       6  the implementation panicked
-      7  serialisation: with two overlapping Loads, the second made handler
+      7  serialisation: no sequential order of several Loads started together
+         explains their results, calls and Current(); or, with two overlapping Loads, the second made handler
          calls / returned accepted while the first was parked inside a
          handler, or the handler calls of the two loads interleave
     No open known-finding class (KF-C17-1, configuration stored by reference,
@@ -45,7 +46,8 @@ Definition ceff := eff string string.
 Inductive op :=
 | OLoad (arg : option cfg)
 | OMutate (c' : cfg)
-| OPar (a b : option cfg).      (* two overlapping Loads, forced schedule (see par_run) *)
+| OPar (a b : option cfg)       (* two overlapping Loads, forced schedule (see par_run) *)
+| ORace (args : list (option cfg)).   (* several Loads started together, no forced schedule *)
 
 (** [RPar early tr ea eb cur]: Load b returned while Load a was parked inside
     its first handler call; every handler call in the global order in which
@@ -55,6 +57,10 @@ Inductive obs :=
 | RLoad (err : bool) (calls : list ccall) (cur : option cfg)
 | RCur (cur : option cfg)
 | RPar (early : bool) (tr : list (nat * ccall)) (ea eb : bool) (cur : option cfg)
+(** [RRace errs tr cur]: error result of each Load (by thread), every handler
+    call in the global order the calls were entered tagged with the thread,
+    Current() after all returned *)
+| RRace (errs : list bool) (tr : list (nat * ccall)) (cur : option cfg)
 | RPanic.
 
 (** construction: the base handed to NewConfigWithBase ([None] = NewConfig or
@@ -169,6 +175,7 @@ Definition mstep (s : option cfg) (o : op) : option cfg * obs :=
       let r := @par_run string string string String.eqb String.eqb "" "" patched_C17_1 s a b in
       let g := snd r in
       (g_cfg g, RPar (fst r) (g_trace g) (pc_err g 0) (pc_err g 1) (m_current (g_cfg g)))
+  | ORace _ => (s, RPanic)     (* races are compared by [mcheck] *)
   end.
 
 (** ** the specification side
@@ -254,6 +261,71 @@ Definition kstep_load (st : option cfg) (rep : option ceff) (arg : option cfg)
    ++ tagif (rep_ok rep' st') 5,
    st', rep').
 
+(** ** unforced races: some sequential order must explain the observation *)
+
+Fixpoint inserts {A} (x : A) (l : list A) : list (list A) :=
+  match l with
+  | [] => [[x]]
+  | y :: l' => (x :: l) :: map (cons y) (inserts x l')
+  end.
+
+Fixpoint perms {A} (l : list A) : list (list A) :=
+  match l with
+  | [] => [[]]
+  | x :: l' => flat_map (inserts x) (perms l')
+  end.
+
+(** the thread tags a load-contiguous trace has when the loads take effect in [order] *)
+Definition block_tags (tr : list (nat * ccall)) (order : list nat) : list nat :=
+  flat_map (fun t => repeat t (List.length (calls_of t tr))) order.
+
+Definition nth_err (errs : list bool) (t : nat) : bool := nth t errs false.
+Definition nth_arg (args : list (option cfg)) (t : nat) : option cfg :=
+  match nth_error args t with Some a => a | None => None end.
+
+(** model: run the loads sequentially in [order]; does that give the observation? *)
+Fixpoint race_model (s : option cfg) (args : list (option cfg)) (errs : list bool)
+    (tr : list (nat * ccall)) (order : list nat) : option cfg * bool :=
+  match order with
+  | [] => (s, true)
+  | t :: o =>
+      let r := m_load s (nth_arg args t) in
+      let e := match snd (fst r) with Some _ => true | None => false end in
+      let rest := race_model (fst (fst r)) args errs tr o in
+      (fst rest,
+       Bool.eqb e (nth_err errs t) && mset_eqb call_eqb (snd r) (calls_of t tr) && snd rest)
+  end.
+
+Definition race_model_ok (s : option cfg) (args : list (option cfg)) (errs : list bool)
+    (tr : list (nat * ccall)) (cur : option cfg) (order : list nat) : bool :=
+  let r := race_model s args errs tr order in
+  snd r && list_eqb Nat.eqb (map fst tr) (block_tags tr order) && ocfg_eqb cur (m_current (fst r)).
+
+(** specification: the chain of [kstep_load]s in [order] raises no tag *)
+Fixpoint race_spec (st : option cfg) (rep : option ceff) (args : list (option cfg))
+    (errs : list bool) (tr : list (nat * ccall)) (cur : option cfg) (order : list nat)
+  : bool * option cfg * option ceff :=
+  match order with
+  | [] => (true, st, rep)
+  | t :: o =>
+      let a := nth_arg args t in
+      let e := nth_err errs t in
+      let sta := if admissible st a e then a else st in
+      let shown_here := match o with [] => cur | _ => shown sta end in
+      let '(tags, st1, rep1) := kstep_load st rep a e (calls_of t tr) shown_here in
+      let '(ok, st2, rep2) := race_spec st1 rep1 args errs tr cur o in
+      (match tags with [] => ok | _ => false end, st2, rep2)
+  end.
+
+Definition race_spec_ok (st : option cfg) (rep : option ceff) (args : list (option cfg))
+    (errs : list bool) (tr : list (nat * ccall)) (cur : option cfg) (order : list nat) : bool :=
+  let '(ok, st', _) := race_spec st rep args errs tr cur order in
+  ok && list_eqb Nat.eqb (map fst tr) (block_tags tr order)
+  && rep_ok (replay_step rep (map snd tr)) st'.
+
+Definition first_order (f : list nat -> bool) (n : nat) : option (list nat) :=
+  find f (perms (seq 0 n)).
+
 (** tags of one step, new specification state, new replay state *)
 Definition kstep (st : option cfg) (rep : option ceff) (o : op) (r : obs)
   : list N * option cfg * option ceff :=
@@ -275,20 +347,46 @@ Definition kstep (st : option cfg) (rep : option ceff) (o : op) (r : obs)
       let '(tb, st2, rep2) := kstep_load st1 rep1 b eb (calls_of 1 tr) cur in
       let repg := replay_step rep (map snd tr) in      (* the calls in the order they were made *)
       (tagif serial 7 ++ ta ++ tb ++ tagif (rep_ok repg st2) 5, st2, repg)
+  | ORace args, RRace errs tr cur =>
+      (* loads started together: any one sequential order of them may be the one
+         that happened, but one must explain everything that was observed *)
+      let n := List.length args in
+      match first_order (race_spec_ok st rep args errs tr cur) n with
+      | Some order =>
+          let '(_, st', _) := race_spec st rep args errs tr cur order in
+          ([], st', replay_step rep (map snd tr))
+      | None =>
+          let '(_, st', _) := race_spec st rep args errs tr cur (seq 0 n) in
+          ([7%N], st', replay_step rep (map snd tr))
+      end
   | _, RPanic => ([6%N], st, rep)
   | _, _ => ([6%N], st, rep)      (* malformed observation *)
   end.
 
 (** ** verdicts *)
 
+(** model state after the step and whether the observation is the model's (for a
+    race: is that of some sequential order of the model's loads) *)
+Definition mcheck (s : option cfg) (o : op) (r : obs) : option cfg * bool :=
+  match o, r with
+  | ORace args, RRace errs tr cur =>
+      let n := List.length args in
+      match first_order (race_model_ok s args errs tr cur) n with
+      | Some order => (fst (race_model s args errs tr order), true)
+      | None => (fst (race_model s args errs tr (seq 0 n)), false)
+      end
+  | ORace args, _ => (s, false)
+  | _, _ => let '(s', rm) := mstep s o in (s', obs_eqb r rm)
+  end.
+
 Fixpoint check_from (i : nat) (ms : option cfg) (st : option cfg) (rep : option ceff)
     (c : list (op * obs)) : list (nat * N) :=
   match c with
   | [] => []
   | (o, r) :: c' =>
-      let '(ms', rm) := mstep ms o in
+      let '(ms', agree) := mcheck ms o r in
       let '(tags, st', rep') := kstep st rep o r in
-      (if obs_eqb r rm then [] else [(i, 1%N)])
+      (if agree then [] else [(i, 1%N)])
       ++ map (fun t => (i, t)) tags
       ++ check_from (S i) ms' st' rep' c'
   end.
